@@ -6,7 +6,8 @@
      - the trace with hooks is the trace without hooks (the transport calls) with
          BeforeWrite b            inserted immediately before the transport Write b,
          AfterEachRead c |c| err  inserted immediately after every transport Read that returned (c, err),
-       in that order, including empty and failing reads ([add_hooks]), followed by
+       in that order, including empty and failing reads and reads that return bytes together
+       with the deadline error or io.EOF ([add_hooks]), followed by
          BeforeParse b            iff a frame b is handed to the parser ([parser_input]), and then
        b is the concatenation of all chunks read and the outcome is the parser's verdict on b;
      - without hooks no hook is called; the only bytes written are those of the request. *)
@@ -48,14 +49,14 @@ Print Assumptions C19_hook_calls.
 (* ---------- non-vacuity ---------- *)
 Example C19_example :
   let q := rq false (RWReg 1 2 3 4) in
-  let sc := plain [quiet; deliver [0; 7; 0; 0; 0]; quiet; deliver [6; 1; 6; 0; 2; 3; 4]] in
+  let sc := plain [quiet; deliver false [0; 7; 0; 0; 0]; quiet; deliver true [6; 1; 6; 0; 2; 3; 4]] in
   snd (client_do (cfg_of KTcp) sc (Some q)) =
   [TSetWriteDeadline;
    HBeforeWrite [0; 7; 0; 0; 0; 6; 1; 6; 0; 2; 3; 4]; TWrite [0; 7; 0; 0; 0; 6; 1; 6; 0; 2; 3; 4];
    TRead [] 1; HAfterRead [] 0 1;
    TRead [0; 7; 0; 0; 0] 0; HAfterRead [0; 7; 0; 0; 0] 5 0;
    TRead [] 1; HAfterRead [] 0 1;
-   TRead [6; 1; 6; 0; 2; 3; 4] 0; HAfterRead [6; 1; 6; 0; 2; 3; 4] 7 0;
+   TRead [6; 1; 6; 0; 2; 3; 4] 1; HAfterRead [6; 1; 6; 0; 2; 3; 4] 7 1;
    HBeforeParse [0; 7; 0; 0; 0; 6; 1; 6; 0; 2; 3; 4]] /\
   fst (client_do (cfg_of KTcp) sc (Some q)) = OResp 7 (PWReg 1 2 3 4) /\
   parser_input (set_hooks (cfg_of KTcp) false) sc (Some q) = Some [0; 7; 0; 0; 0; 6; 1; 6; 0; 2; 3; 4].
@@ -63,7 +64,7 @@ Proof. cbn zeta. repeat split; vm_compute; reflexivity. Qed.
 (* a failing read is seen by the hook, and the parser is not reached *)
 Example C19_example_failing_read :
   let q := rq true (RWReg 1 2 3 4) in
-  let sc := plain [deliver [1; 6]; {| s_ctx := false; s_timer := false; s_pick := false; s_rd := RIoErr [0] |}] in
+  let sc := plain [deliver false [1; 6]; {| s_ctx := false; s_deadline := false; s_timer := false; s_pick := false; s_rd := RIoErr [0] |}] in
   snd (client_do (cfg_of KSerial) sc (Some q)) =
   [HBeforeWrite (q_bytes q); TWrite (q_bytes q); TRead [1; 6] 0; HAfterRead [1; 6] 2 0;
    TRead [0] 3; HAfterRead [0] 1 3; TFlush] /\
